@@ -24,4 +24,5 @@ HOOK_COMMITS = [
     "verif hooks: RTR listener/stream exposure, rendezvous points in RtrStream::new and metrics",
     "verif hooks: status/metrics renderers, PublishInfo re-export, injected RRDP outcome, LimitedDataRead exposure",
     "verif hooks: Archive creation with chosen hash key, ValidationReport plain-data push/reject",
+    "verif hooks: path builders / dubious-host gates, stored record exposure, forced manifest order, rsync load_module points, in-process rsync stand-in, kill points (store, fatal, RRDP update), RRDP updater exposure",
 ]
